@@ -1,5 +1,6 @@
 import WrglModel.Driver.Util
 import WrglModel.Model.Pool
+import WrglModel.Model.PBar
 import WrglModel.Gen.Facts
 open Lean
 namespace Wrgl.Drv
@@ -69,6 +70,24 @@ def handleC16 (op : String) (input impl : Json) : Except String Json := do
     let isErr := (fldD (fldD impl "val" Json.null) "error" (Json.bool false)).getBool?.toOption.getD false
     let expectErr := failAt ≥ 0 && failAt.toNat < 2 * nb + 3
     return reply mj true (if isErr == expectErr then [] else ["error-in-one-worker-is-reported"])
+  | "pbar" =>
+    -- a progress bar moved by any calls is finished with Done(), which must return
+    let total ← intFld input "total"
+    let opsJ ← (do if (fldD input "ops" Json.null).isNull then pure [] else arrFld input "ops")
+    let ops ← opsJ.mapM (fun o => do
+      let k ← strFld o "k"
+      let v ← intFld o "v"
+      match k with
+      | "incr" => pure (PBarOp.incr v)
+      | "total" => pure (PBarOp.setTotal v)
+      | "cur" => pure (PBarOp.setCurrent v)
+      | _ => throw s!"unknown pbar op {k}")
+    let m := pbarDoneReturns Facts.pbarDoneForcesCompletion total ops
+    let mj := Json.mkObj [("returns", Json.bool m)]
+    if resClass impl == "panic" then return reply mj false ["no-panic"]
+    if resClass impl != "ok" then return reply mj false ["unexpected-error"]
+    let returned := (fldD (fldD impl "val" Json.null) "returned" (Json.bool false)).getBool?.toOption.getD false
+    return reply mj (m == returned) (if returned then [] else ["always-terminates"])
   | _ => throw s!"unknown op {op}"
 
 end Wrgl.Drv
